@@ -119,6 +119,25 @@ def step (st : St) (line : String) : St × String :=
         | _ => (st, "bad-op")
       | none => (st, "bad-op")
     | _, _, _, _ => (st, "bad-op")
+  | "upgrade", chainId :: epoch :: tp :: bt :: n :: rest =>
+    match chainId.toNat?, epoch.toNat?, tp.toNat?, bt.toNat?, n.toNat? with
+    | some chainId, some epoch, some tp, some bt, some n =>
+      match parseVals n rest with
+      | some (vals, rest) =>
+        match parseHdr rest with
+        | some (h, [hh, sg]) =>
+          match parseHash hh, parseSigner sg with
+          | some hh, some sg =>
+            let env := mkEnv 0 none h hh sg
+            let (w', v) := applyOp env st.w (.upgrade i { head := h, chainId := chainId, epoch := epoch, validators := vals, trustingPeriod := tp } bt)
+            match v, w' i with
+            | .ok _, some (cs, s) =>
+              ({ w := w', headHash := fun j => if j = i then hh else st.headHash j }, dump cs s h)
+            | v, _ => (st, verdictStr v)
+          | _, _ => (st, "bad-op")
+        | _ => (st, "bad-op")
+      | none => (st, "bad-op")
+    | _, _, _, _, _ => (st, "bad-op")
   | "update", bt :: rest =>
     match bt.toNat?, parseHdr rest with
     | some bt, some (h, [hh, sg]) =>
